@@ -344,10 +344,12 @@ func (c *Client) Subscribe(topic string, fn EventHandler, options wamp.Dict) err
 	}
 	id := c.sess.IDGen.Next()
 	c.expectReply(id)
-	c.sess.Send() <- &wamp.Subscribe{
+	if err := c.sendRequest(id, &wamp.Subscribe{
 		Request: id,
 		Options: options,
 		Topic:   wamp.URI(topic),
+	}); err != nil {
+		return err
 	}
 
 	// Wait to receive SUBSCRIBED message.
@@ -415,9 +417,11 @@ func (c *Client) Unsubscribe(topic string) error {
 
 	id := c.sess.IDGen.Next()
 	c.expectReply(id)
-	c.sess.Send() <- &wamp.Unsubscribe{
+	if err := c.sendRequest(id, &wamp.Unsubscribe{
 		Request:      id,
 		Subscription: subID,
+	}); err != nil {
+		return err
 	}
 
 	// Wait to receive UNSUBSCRIBED message.
@@ -539,7 +543,9 @@ func (c *Client) Publish(topic string, options wamp.Dict, args wamp.List, kwargs
 		message.ArgumentsKw = kwargs
 	}
 
-	c.sess.Send() <- message
+	if err := c.sendRequest(id, message); err != nil {
+		return err
+	}
 
 	if !pubAck {
 		return nil
@@ -603,10 +609,12 @@ func (c *Client) Register(procedure string, fn InvocationHandler, options wamp.D
 	if options == nil {
 		options = wamp.Dict{}
 	}
-	c.sess.Send() <- &wamp.Register{
+	if err := c.sendRequest(id, &wamp.Register{
 		Request:   id,
 		Options:   options,
 		Procedure: wamp.URI(procedure),
+	}); err != nil {
+		return err
 	}
 
 	// Wait to receive REGISTERED message.
@@ -666,9 +674,11 @@ func (c *Client) Unregister(procedure string) error {
 
 	id := c.sess.IDGen.Next()
 	c.expectReply(id)
-	c.sess.Send() <- &wamp.Unregister{
+	if err := c.sendRequest(id, &wamp.Unregister{
 		Request:      id,
 		Registration: procID,
+	}); err != nil {
+		return err
 	}
 
 	// Wait to receive UNREGISTERED message.
@@ -800,7 +810,13 @@ func (c *Client) Call(ctx context.Context, procedure string, options wamp.Dict, 
 		return nil, err
 	}
 
-	c.sess.Send() <- message
+	if err = c.sendRequest(id, message); err != nil {
+		if progChan != nil {
+			close(progChan)
+			<-progDone
+		}
+		return nil, err
+	}
 
 	// Wait to receive RESULT message.
 	msg, err := c.waitForReplyWithCancel(ctx, id, procedure, progChan)
@@ -821,7 +837,7 @@ func (c *Client) Call(ctx context.Context, procedure string, options wamp.Dict, 
 		abortMsg, err := c.prepareCallResultMessage(msg)
 		if err != nil {
 			if abortMsg != nil {
-				c.sess.Send() <- abortMsg
+				c.send(abortMsg)
 				c.sess.Close()
 			}
 
@@ -898,7 +914,13 @@ func (c *Client) CallProgressive(ctx context.Context, procedure string, sendProg
 		return nil, err
 	}
 
-	c.sess.Send() <- message
+	if err = c.sendRequest(id, message); err != nil {
+		if progChan != nil {
+			close(progChan)
+			<-progDone
+		}
+		return nil, err
+	}
 
 	callInProgress, _ := options[wamp.OptProgress].(bool)
 
@@ -910,10 +932,10 @@ func (c *Client) CallProgressive(ctx context.Context, procedure string, sendProg
 				cliOptions, args, kwargs, err := sendProg(ctx)
 
 				if err != nil {
-					c.sess.Send() <- &wamp.Cancel{
+					c.send(&wamp.Cancel{
 						Request: id,
 						Options: wamp.SetOption(nil, wamp.OptMode, wamp.CancelModeKillNoWait),
-					}
+					})
 					return
 				}
 
@@ -937,14 +959,16 @@ func (c *Client) CallProgressive(ctx context.Context, procedure string, sendProg
 				}
 
 				if err := c.prepareCallPayloadMessage(message, options, args, kwargs); err != nil {
-					c.sess.Send() <- &wamp.Cancel{
+					c.send(&wamp.Cancel{
 						Request: id,
 						Options: wamp.SetOption(nil, wamp.OptMode, wamp.CancelModeKillNoWait),
-					}
+					})
 					return
 				}
 
-				c.sess.Send() <- message
+				if !c.send(message) {
+					return
+				}
 			}
 		}()
 	}
@@ -968,7 +992,7 @@ func (c *Client) CallProgressive(ctx context.Context, procedure string, sendProg
 		abortMsg, err := c.prepareCallResultMessage(msg)
 		if err != nil {
 			if abortMsg != nil {
-				c.sess.Send() <- abortMsg
+				c.send(abortMsg)
 				c.sess.Close()
 			}
 
@@ -1310,6 +1334,31 @@ func unexpectedMsgError(msg wamp.Message, expected wamp.MessageType) error {
 	return errors.New(s)
 }
 
+// send sends a message to the router. It returns false, without sending, if
+// the session has ended or is being closed: nothing reads the messages of an
+// ended session, so an unconditional send would block forever.
+func (c *Client) send(msg wamp.Message) bool {
+	select {
+	case c.sess.Send() <- msg:
+		return true
+	case <-c.Done():
+	case <-c.sess.RecvDone():
+	}
+	return false
+}
+
+// sendRequest sends a request for which a reply is expected. If the session
+// has ended, the request is forgotten and ErrNotConn is returned.
+func (c *Client) sendRequest(id wamp.ID, msg wamp.Message) error {
+	if c.send(msg) {
+		return nil
+	}
+	c.sess.Lock()
+	delete(c.awaitingReply, id)
+	c.sess.Unlock()
+	return ErrNotConn
+}
+
 func (c *Client) expectReply(id wamp.ID) {
 	wait := make(chan wamp.Message)
 	c.sess.Lock()
@@ -1396,10 +1445,10 @@ CollectResults:
 			c.log.Printf("Call to %q canceled by caller (mode=%s): %s",
 				procedure, c.cancelMode, err)
 		}
-		c.sess.Send() <- &wamp.Cancel{
+		c.send(&wamp.Cancel{
 			Request: id,
 			Options: wamp.SetOption(nil, wamp.OptMode, c.cancelMode),
-		}
+		})
 		// Wait for the ERROR from the dealer.
 		timer := time.NewTimer(c.responseTimeout)
 	waitCancel:
@@ -1605,13 +1654,13 @@ func (c *Client) runHandleInvocation(msg *wamp.Invocation) {
 		// as ErrNoSuchProcedure, since the dealer has a procedure registered.
 		// It is reported as ErrInvalidArgument to denote that the client has a
 		// problem with the registration ID argument.
-		c.sess.Send() <- &wamp.Error{
+		c.send(&wamp.Error{
 			Type:      wamp.INVOCATION,
 			Request:   reqID,
 			Details:   wamp.Dict{},
 			Error:     wamp.ErrInvalidArgument,
 			Arguments: wamp.List{errMsg},
-		}
+		})
 		c.log.Print(errMsg)
 		return
 	}
@@ -1621,13 +1670,13 @@ func (c *Client) runHandleInvocation(msg *wamp.Invocation) {
 	if pptScheme, _ := msg.Details[wamp.OptPPTScheme].(string); pptScheme != "" {
 		if !isPPTSchemeValid(pptScheme) {
 			c.sess.Unlock()
-			c.sess.Send() <- &wamp.Error{
+			c.send(&wamp.Error{
 				Type:      wamp.INVOCATION,
 				Request:   reqID,
 				Details:   wamp.Dict{},
 				Error:     wamp.ErrInvalidArgument,
 				Arguments: wamp.List{ErrPPTSchemeInvalid.Error()},
-			}
+			})
 			c.log.Printf("cannot process invocation with invalid ppt schema %q: %v", pptScheme, ErrPPTSchemeInvalid)
 			return
 		}
@@ -1646,13 +1695,13 @@ func (c *Client) runHandleInvocation(msg *wamp.Invocation) {
 
 		if err != nil {
 			c.sess.Unlock()
-			c.sess.Send() <- &wamp.Error{
+			c.send(&wamp.Error{
 				Type:      wamp.INVOCATION,
 				Request:   reqID,
 				Details:   wamp.Dict{},
 				Error:     wamp.ErrInvalidArgument,
 				Arguments: wamp.List{err.Error()},
-			}
+			})
 			c.log.Printf("cannot unpack invocation message: %v", err)
 			return
 		}
@@ -1847,7 +1896,7 @@ func (c *Client) runHandleInvocation(msg *wamp.Invocation) {
 							wamp.OptMessage: ErrPPTNotSupportedByPeer.Error(),
 						},
 					}
-					c.sess.Send() <- &abortMsg
+					c.send(&abortMsg)
 					c.sess.Close()
 					return
 				}
